@@ -3,88 +3,160 @@ import CaresLemmas.ChanPolicyFrame
 import CaresLemmas.ChanPolicyLookup
 /-!
 # C06 — the write accounting as a state invariant: helpers of the channel model
+
+`CInv tr ns cw ex s` = "`s` ran out of fuel, or the accounting invariant `COk` holds of its projection".  (A run that
+runs out of fuel stops in the middle of a procedure; nothing is claimed about such a state except that the flag is set,
+and the flag is never cleared.)
 -/
 namespace Cares.Chan
 set_option linter.unusedVariables false
 
 /-- the projection of the state the accounting reads -/
-def wproj (s : St) : WP :=
-  ⟨s.cfg.tries, s.servers.length, s.qs, s.byQid, s.nextKey, s.obs.rnd2, s.requeueArr, s.writeLog, s.accepted⟩
+def cproj (s : St) : CP :=
+  ⟨s.cfg.tries, s.servers.length, s.qs, s.byQid, s.nextKey, s.obs.rnd2, s.requeueArr, s.writeLog,
+   s.conns.map (fun c => (c.fd, c.tcp)), s.nextFd, s.servers.map (·.tcpConn)⟩
 
 /-- the accounting invariant of a state -/
-def WInv (tr ns : Nat) (cw : Option Nat) (s : St) : Prop := WOk tr ns cw (wproj s)
+def CInv (tr ns : Nat) (cw ex : Option Nat) (s : St) : Prop := s.outOfFuel = true ∨ COk tr ns cw ex (cproj s)
 
 section
-variable {tr ns : Nat} {cw : Option Nat}
+variable {tr ns : Nat} {cw ex : Option Nat}
 
-theorem WInv.congr {s s' : St} (h0 : s'.cfg = s.cfg) (h1 : wproj s' = wproj s) (h : WInv tr ns cw s) :
-    WInv tr ns cw s' := by
-  unfold WInv at *; rw [h1]; exact h
+theorem CInv.congr {s s' : St} (h0 : s'.cfg = s.cfg) (h1 : cproj s' = cproj s) (h2 : s'.outOfFuel = s.outOfFuel)
+    (h : CInv tr ns cw ex s) : CInv tr ns cw ex s' := by
+  unfold CInv at *; rw [h1, h2]; exact h
 
-theorem WInv.dropW {s : St} (h : WInv tr ns cw s) : WInv tr ns none s := WOk.dropW h
+/-- lift a step of the projection-level theory -/
+theorem CInv.lift {cw' ex' : Option Nat} {s s' : St} (h : CInv tr ns cw ex s) (h2 : s'.outOfFuel = s.outOfFuel)
+    (hok : COk tr ns cw ex (cproj s) → COk tr ns cw' ex' (cproj s')) :
+    CInv tr ns cw' ex' s' := by
+  rcases h with h | h
+  · exact Or.inl (by rw [h2]; exact h)
+  · exact Or.inr (hok h)
 
-/-! ### servers: only their number matters -/
+theorem CInv.dropW {s : St} (h : CInv tr ns cw ex s) : CInv tr ns none ex s := CInv.lift h rfl COk.dropW
+theorem CInv.addEx {s : St} (h : CInv tr ns cw none s) : CInv tr ns cw ex s := CInv.lift h rfl (fun h => COk.addEx h ex)
+theorem CInv.oofSt (s : St) : CInv tr ns cw ex s.oof.1 := Or.inl rfl
 
-theorem WInv.setServer {s : St} {v : Server} (h : WInv tr ns cw s) : WInv tr ns cw (s.setServer v) := by
-  refine WInv.congr (s := s) rfl ?_ h
-  unfold wproj St.setServer; simp
+/-! ### servers -/
 
-theorem WInv.modServer {s : St} {id : Nat} {f : Server → Server} (h : WInv tr ns cw s) :
-    WInv tr ns cw (s.modServer id f) := by
-  refine WInv.congr (s := s) rfl ?_ h
-  unfold wproj St.modServer; simp
+theorem CInv.modServer {s : St} {id : Nat} {f : Server → Server}
+    (hf : ∀ v, (f v).tcpConn = v.tcpConn ∨ (f v).tcpConn = none)
+    (h : CInv tr ns cw ex s) : CInv tr ns cw ex (s.modServer id f) := by
+  refine CInv.lift h rfl ?_
+  intro hok
+  have : cproj (s.modServer id f) =
+      { cproj s with tcpConns := (s.servers.map fun x => if x.id == id then f x else x).map (·.tcpConn) } := by
+    unfold cproj St.modServer; simp
+  rw [this]
+  apply COk.subTcp _ _ hok
+  intro o ho
+  obtain ⟨x, hx, rfl⟩ := List.mem_map.1 ho
+  obtain ⟨y, hy, rfl⟩ := List.mem_map.1 hx
+  by_cases hyv : y.id == id
+  · simp only [hyv, ↓reduceIte]
+    rcases hf y with e | e
+    · left; rw [e]; exact List.mem_map.2 ⟨y, hy, rfl⟩
+    · right; exact e
+  · simp only [hyv]; left; exact List.mem_map.2 ⟨y, hy, rfl⟩
 
-theorem WInv.incFailures {s : St} {id : Nat} {tcp : Bool} (h : WInv tr ns cw s) :
-    WInv tr ns cw (s.incFailures id tcp) := by
+/-- a server record is replaced by one with the `tcpConn` of a configured server -/
+theorem CInv.setServer {s : St} {v v0 : Server} (hv0 : v0 ∈ s.servers) (hv : v.tcpConn = v0.tcpConn)
+    (h : CInv tr ns cw ex s) : CInv tr ns cw ex (s.setServer v) := by
+  refine CInv.lift h rfl ?_
+  intro hok
+  have : cproj (s.setServer v) =
+      { cproj s with tcpConns := (s.servers.map fun x => if x.id == v.id then v else x).map (·.tcpConn) } := by
+    unfold cproj St.setServer; simp
+  rw [this]
+  apply COk.subTcp _ _ hok
+  intro o ho
+  obtain ⟨x, hx, rfl⟩ := List.mem_map.1 ho
+  obtain ⟨y, hy, rfl⟩ := List.mem_map.1 hx
+  left
+  by_cases hyv : y.id == v.id
+  · simp only [hyv, ↓reduceIte]; rw [hv]; exact List.mem_map.2 ⟨v0, hv0, rfl⟩
+  · simp only [hyv]; exact List.mem_map.2 ⟨y, hy, rfl⟩
+
+theorem CInv.incFailures {s : St} {id : Nat} {tcp : Bool} (h : CInv tr ns cw ex s) :
+    CInv tr ns cw ex (s.incFailures id tcp) := by
   unfold St.incFailures
   split
   · exact h
-  · exact WInv.congr (s := s.setServer _) rfl rfl (WInv.setServer h)
+  · rename_i v hv
+    exact CInv.congr (s := s.setServer _) rfl rfl rfl
+      (CInv.setServer (v0 := v) (List.mem_of_find?_eq_some hv) rfl h)
 
-theorem WInv.setGood {s : St} {id : Nat} {tcp : Bool} (h : WInv tr ns cw s) :
-    WInv tr ns cw (s.setGood id tcp) := by
+theorem CInv.setGood {s : St} {id : Nat} {tcp : Bool} (h : CInv tr ns cw ex s) :
+    CInv tr ns cw ex (s.setGood id tcp) := by
   unfold St.setGood
   split
   · exact h
-  · exact WInv.congr (s := s.setServer _) rfl rfl (WInv.setServer h)
+  · rename_i v hv
+    exact CInv.congr (s := s.setServer _) rfl rfl rfl
+      (CInv.setServer (v0 := v) (List.mem_of_find?_eq_some hv) rfl h)
 
-theorem WInv.metricsRecord {s : St} {q : Query} {srv : Option Nat} {st : Status} {rec : Option Reply}
-    (h : WInv tr ns cw s) : WInv tr ns cw (s.metricsRecord q srv st rec) := by
+theorem CInv.metricsRecord {s : St} {q : Query} {srv : Option Nat} {st : Status} {rec : Option Reply}
+    (h : CInv tr ns cw ex s) : CInv tr ns cw ex (s.metricsRecord q srv st rec) := by
   unfold St.metricsRecord
   split
   · split
     · exact h
-    · exact WInv.modServer h
+    · exact CInv.modServer (fun _ => Or.inl rfl) h
   · exact h
+
+/-! ### connections: descriptor and transport never change -/
+
+theorem CInv.modConn {s : St} {fd : Nat} {f : Conn → Conn} (hf : ∀ c, (f c).fd = c.fd ∧ (f c).tcp = c.tcp)
+    (h : CInv tr ns cw ex s) : CInv tr ns cw ex (s.modConn fd f) := by
+  refine CInv.congr (s := s) rfl ?_ rfl h
+  unfold cproj St.modConn
+  simp only [List.map_map, CP.mk.injEq, true_and, and_true]
+  apply List.map_congr_left
+  intro c _
+  by_cases hc : c.fd == fd <;> simp [Function.comp, hc, hf]
+
+theorem CInv.notify {s : St} {fd : Nat} {r w : Bool} (h : CInv tr ns cw ex s) :
+    CInv tr ns cw ex (s.notify fd r w) := by
+  unfold St.notify
+  split
+  · exact h
+  · split
+    · exact CInv.congr (s := s.modConn fd _) rfl rfl rfl (CInv.modConn (fun _ => ⟨rfl, rfl⟩) h)
+    · exact CInv.modConn (fun _ => ⟨rfl, rfl⟩) h
 
 /-! ### the observation -/
 
-theorem WInv.draw1 {s : St} (h : WInv tr ns cw s) : WInv tr ns cw s.draw1.2 := by
+theorem CInv.draw1 {s : St} (h : CInv tr ns cw ex s) : CInv tr ns cw ex s.draw1.2 := by
   unfold St.draw1
   split
   · exact h
   · exact h
 
-theorem WInv.pop8 {s : St} (h : WInv tr ns cw s) : WInv tr ns cw s.pop8 := by
+theorem CInv.pop8 {s : St} (h : CInv tr ns cw ex s) : CInv tr ns cw ex s.pop8 := by
   unfold St.pop8
   split
   · exact h
   · exact h
 
-theorem wproj_draw2 (s : St) : wproj s.draw2.2 = { wproj s with rnd2 := s.obs.rnd2.tail } := by
+theorem cproj_draw2 (s : St) : cproj s.draw2.2 = { cproj s with rnd2 := s.obs.rnd2.tail } ∧
+    s.draw2.2.outOfFuel = s.outOfFuel := by
   unfold St.draw2
   split
-  · rename_i h; unfold wproj St.ofault; simp [h]
-  · rename_i x r h; unfold wproj; simp [h]
+  · rename_i h; unfold cproj St.ofault; simp [h]
+  · rename_i x r h; unfold cproj; simp [h]
 
-theorem WInv.draw2 {s : St} (h : WInv tr ns cw s) : WInv tr ns cw s.draw2.2 := by
-  unfold WInv; rw [wproj_draw2]
-  exact WOk.shrinkRnd (List.tail_sublist _) h
+theorem CInv.draw2 {s : St} (h : CInv tr ns cw ex s) : CInv tr ns cw ex s.draw2.2 := by
+  refine CInv.lift h (cproj_draw2 s).2 ?_
+  intro hok
+  rw [(cproj_draw2 s).1]
+  exact COk.shrinkRnd (List.tail_sublist _) hok
 
 /-- `generate_unique_qid`: the id is one of the observed draws (consumed, so with distinct draws it cannot come again)
     or, when the observation is exhausted, the fallback `70000 + nextKey`; the draws only shrink -/
 theorem genQid_spec (n : Nat) (s : St) (hlen : s.obs.rnd2.length < n) :
-    (∃ r', r'.Sublist s.obs.rnd2 ∧ wproj (genQid n s).2 = { wproj s with rnd2 := r' } ∧
+    (∃ r', r'.Sublist s.obs.rnd2 ∧ cproj (genQid n s).2 = { cproj s with rnd2 := r' } ∧
+      (genQid n s).2.outOfFuel = s.outOfFuel ∧
       (((genQid n s).1 ∈ s.obs.rnd2 ∧ (s.obs.rnd2.Nodup → (genQid n s).1 ∉ r')) ∨
        (genQid n s).1 = 70000 + s.nextKey)) := by
   induction n generalizing s with
@@ -93,137 +165,284 @@ theorem genQid_spec (n : Nat) (s : St) (hlen : s.obs.rnd2.length < n) :
     unfold genQid
     split
     · rename_i hemp
-      refine ⟨s.obs.rnd2, List.Sublist.refl _, ?_, Or.inr rfl⟩
-      unfold wproj St.ofault; rfl
+      refine ⟨s.obs.rnd2, List.Sublist.refl _, ?_, rfl, Or.inr rfl⟩
+      unfold cproj St.ofault; rfl
     · rename_i hemp
       cases hr : s.obs.rnd2 with
       | nil => rw [hr] at hemp; simp at hemp
       | cons x r =>
         have hd1 : s.draw2.1 = x := by unfold St.draw2; rw [hr]
-        have hd2 : wproj s.draw2.2 = { wproj s with rnd2 := r } := by rw [wproj_draw2, hr]; rfl
+        have hd2 : cproj s.draw2.2 = { cproj s with rnd2 := r } := by rw [(cproj_draw2 s).1, hr]; rfl
         have hd3 : s.draw2.2.obs.rnd2 = r := by
-          have := congrArg WP.rnd2 hd2; exact this
+          have := congrArg CP.rnd2 hd2; exact this
         have hd4 : s.draw2.2.nextKey = s.nextKey := by
-          have := congrArg WP.nextKey hd2; exact this
+          have := congrArg CP.nextKey hd2; exact this
         dsimp only
         split
         · have hlen' : s.draw2.2.obs.rnd2.length < n := by rw [hd3]; rw [hr] at hlen; simp at hlen; omega
-          obtain ⟨r', hsub, hw, hx⟩ := ih s.draw2.2 hlen'
+          obtain ⟨r', hsub, hw, hoo, hx⟩ := ih s.draw2.2 hlen'
           rw [hd3] at hsub hx
-          refine ⟨r', hsub.trans (List.sublist_cons_self x r), ?_, ?_⟩
+          refine ⟨r', hsub.trans (List.sublist_cons_self x r), ?_, ?_, ?_⟩
           · rw [hw, hd2]
+          · rw [hoo, (cproj_draw2 s).2]
           · rcases hx with ⟨hm, hn⟩ | hf
             · left
               exact ⟨List.mem_cons_of_mem _ hm, fun hnd => hn (List.nodup_cons.1 hnd).2⟩
             · right; rw [hf, hd4]
-        · refine ⟨r, List.sublist_cons_self x r, hd2, Or.inl ?_⟩
+        · refine ⟨r, List.sublist_cons_self x r, hd2, (cproj_draw2 s).2, Or.inl ?_⟩
           rw [hd1]
           exact ⟨List.mem_cons_self, fun hnd => (List.nodup_cons.1 hnd).1⟩
 
-theorem WInv.genQid {s : St} (h : WInv tr ns cw s) : WInv tr ns cw (genQid 70000 s).2 := by
-  obtain ⟨r', hsub, hw, _⟩ := genQid_spec 70000 s h.rndLen
-  unfold WInv; rw [hw]
-  exact WOk.shrinkRnd hsub h
+theorem CInv.genQid {s : St} (h : CInv tr ns cw ex s) : CInv tr ns cw ex (Cares.Chan.genQid 70000 s).2 := by
+  rcases h with h | h
+  · -- the flag is not touched
+    have : ∀ n s, (Cares.Chan.genQid n s).2.outOfFuel = s.outOfFuel := by
+      intro n s
+      obtain ⟨o, f, e⟩ := genQid_shape n s
+      rw [e]
+    exact Or.inl (by rw [this]; exact h)
+  · obtain ⟨r', hsub, hw, _, _⟩ := genQid_spec 70000 s h.rndLen
+    right; rw [hw]
+    exact COk.shrinkRnd hsub h
 
 /-! ### queries -/
 
-theorem WInv.mapQs {s : St} {g : Query → Query} (hg : WOk.CoreEq g) (h : WInv tr ns cw s) :
-    WInv tr ns cw { s with qs := s.qs.map g } := WOk.mapQs hg h
+theorem CInv.mapQs {s : St} {g : Query → Query} (hg : COk.CoreEq g) (h : CInv tr ns cw ex s) :
+    CInv tr ns cw ex { s with qs := s.qs.map g } := CInv.lift h rfl (COk.mapQs hg)
 
-theorem WInv.modQuery {s : St} {k : Nat} {f : Query → Query} (hf : WOk.CoreEq f) (h : WInv tr ns cw s) :
-    WInv tr ns cw (s.modQuery k f) := by
+theorem CInv.modQuery {s : St} {k : Nat} {f : Query → Query} (hf : COk.CoreEq f) (h : CInv tr ns cw ex s) :
+    CInv tr ns cw ex (s.modQuery k f) := by
   unfold St.modQuery
-  apply WInv.mapQs _ h
+  apply CInv.mapQs _ h
   intro q
   by_cases hq : q.key == k
   · simp only [hq, ↓reduceIte]; exact hf q
-  · simp only [hq]; exact ⟨rfl, rfl, rfl, rfl, rfl, rfl⟩
+  · simp only [hq]; exact ⟨rfl, rfl, rfl, rfl, rfl, rfl, rfl, rfl⟩
 
-theorem coreEq_nameOnly {g : Query → Query} (hg : NameOnly g) : WOk.CoreEq g := by
+theorem coreEq_nameOnly {g : Query → Query} (hg : NameOnly g) : COk.CoreEq g := by
   intro q
   obtain ⟨nm, e⟩ := hg q
-  rw [e]; exact ⟨rfl, rfl, rfl, rfl, rfl, rfl⟩
+  rw [e]; exact ⟨rfl, rfl, rfl, rfl, rfl, rfl, rfl, rfl⟩
 
-theorem coreEq_unlink : WOk.CoreEq (fun x => if x.key == k then unlinkQ x else x) := by
-  intro q
-  by_cases hq : q.key == k
-  · simp only [hq, ↓reduceIte]; exact ⟨rfl, rfl, rfl, rfl, rfl, rfl⟩
-  · simp only [hq]; exact ⟨rfl, rfl, rfl, rfl, rfl, rfl⟩
+/-- `ares_query_remove_from_conn` on the projection: the query with key `k` (if any) is detached; an exemption for
+    that key is no longer needed -/
+theorem COk.unlink {p : CP} (k : Nat) (hex : ex = none ∨ ex = some k) (h : COk tr ns cw ex p) :
+    COk tr ns cw none { p with qs := p.qs.map (fun x => if x.key == k then unlinkQ x else x) } := by
+  by_cases hm : ∃ q0 ∈ p.qs, q0.key = k
+  · obtain ⟨q0, hq0, rfl⟩ := hm
+    rcases Option.eq_none_or_eq_some cw with hcw | ⟨kc, hcw⟩
+    · exact COk.modKey q0 hq0 unlinkQ cw none ⟨rfl, rfl⟩ (Or.inl hcw) (Or.inl hcw) hex (Or.inl rfl) h
+        (fun c hc => hc) (h.ck3 q0 hq0) (h.ck3tcp q0 hq0) (fun _ _ => Or.inr rfl)
+        (fun _ _ fd hc => by cases hc) (fun fd hc => by cases hc)
+    · by_cases hkc : kc = q0.key
+      · exact COk.modKey q0 hq0 unlinkQ cw none ⟨rfl, rfl⟩ (Or.inr (by rw [hcw, hkc])) (Or.inr (by rw [hcw, hkc]))
+          hex (Or.inl rfl) h
+          (fun c hc => hc) (h.ck3 q0 hq0) (h.ck3tcp q0 hq0) (fun _ _ => Or.inr rfl)
+          (fun _ _ fd hc => by cases hc) (fun fd hc => by cases hc)
+      · -- a credit for another key: drop and restore it around the rewrite is not possible; handle directly
+        have h' := COk.modKey q0 hq0 unlinkQ none none ⟨rfl, rfl⟩ (Or.inl rfl) (Or.inl rfl) hex (Or.inl rfl)
+          h.dropW (fun c hc => hc) (h.ck3 q0 hq0) (h.ck3tcp q0 hq0) (fun _ _ => Or.inr rfl)
+          (fun _ _ fd hc => by cases hc) (fun fd hc => by cases hc)
+        refine { h' with acct := ?_ }
+        intro q hq
+        obtain ⟨x, hx, rfl⟩ := List.mem_map.1 hq
+        have h0 := h.acct x hx
+        by_cases hxk : x.key == q0.key
+        · simp only [hxk, ↓reduceIte]
+          exact h0
+        · simp only [hxk]
+          exact h0
+  · -- no such query: nothing changes
+    have hid : p.qs.map (fun x => if x.key == k then unlinkQ x else x) = p.qs := by
+      conv => rhs; rw [← List.map_id p.qs]
+      apply List.map_congr_left
+      intro x hx
+      have : ¬ (x.key == k) = true := by
+        intro e; exact hm ⟨x, hx, by simpa using e⟩
+      simp [this]
+    rw [hid]
+    exact { h with
+      ckR := fun q hq _ h3 => h.ckR q hq (by
+        rcases hex with rfl | rfl
+        · simp
+        · intro e; exact hm ⟨q, hq, (Option.some.inj e).symm⟩) h3
+      attTcp := fun q hq _ hu fd hc => h.attTcp q hq (by
+        rcases hex with rfl | rfl
+        · simp
+        · intro e; exact hm ⟨q, hq, (Option.some.inj e).symm⟩) hu fd hc }
 
-theorem wproj_removeFromConn (s : St) (k : Nat) :
-    wproj (s.removeFromConn k) = { wproj s with qs := s.qs.map (fun x => if x.key == k then unlinkQ x else x) } ∨
-    wproj (s.removeFromConn k) = wproj s := by
+theorem map_unlink_of_none {s : St} {k : Nat} (h : s.query? k = none) :
+    s.qs.map (fun x => if x.key == k then unlinkQ x else x) = s.qs := by
+  conv => rhs; rw [← List.map_id s.qs]
+  apply List.map_congr_left
+  intro x hx
+  unfold St.query? at h
+  rw [List.find?_eq_none] at h
+  have := h x hx
+  simp only [this, Bool.false_eq_true, ↓reduceIte, id]
+
+theorem cproj_removeFromConn (s : St) (k : Nat) :
+    cproj (s.removeFromConn k) = { cproj s with qs := s.qs.map (fun x => if x.key == k then unlinkQ x else x) } ∧
+    (s.removeFromConn k).outOfFuel = s.outOfFuel := by
   unfold St.removeFromConn
   split
-  · exact Or.inr rfl
-  · left
-    dsimp only
-    split <;> rfl
+  · rename_i hnone
+    refine ⟨?_, rfl⟩
+    rw [map_unlink_of_none hnone]; rfl
+  · refine ⟨?_, ?_⟩
+    · dsimp only
+      split
+      · unfold cproj St.modQuery St.modConn
+        simp only [List.map_map, CP.mk.injEq, true_and, and_true]
+        refine ⟨rfl, ?_⟩
+        apply List.map_congr_left
+        intro c _
+        dsimp only [Function.comp]
+        split <;> rfl
+      · rfl
+    · dsimp only
+      split <;> rfl
 
-theorem WInv.removeFromConn {s : St} {k : Nat} (h : WInv tr ns cw s) : WInv tr ns cw (s.removeFromConn k) := by
-  unfold WInv
-  rcases wproj_removeFromConn s k with e | e
-  · rw [e]; exact WOk.mapQs coreEq_unlink h
-  · rw [e]; exact h
+/-- detaching keeps the invariant and settles an exemption for that key -/
+theorem CInv.removeFromConn' {s : St} {k : Nat} (hex : ex = none ∨ ex = some k) (h : CInv tr ns cw ex s) :
+    CInv tr ns cw none (s.removeFromConn k) := by
+  refine CInv.lift h (cproj_removeFromConn s k).2 ?_
+  intro hok
+  rw [(cproj_removeFromConn s k).1]; exact COk.unlink k hex hok
 
-theorem WInv.subQs {s : St} {qs' : List Query} {bq' : List (Nat × Nat)} (hq : qs'.Sublist s.qs)
-    (hb : bq'.Sublist s.byQid) (h : WInv tr ns cw s) : WInv tr ns cw { s with qs := qs', byQid := bq' } :=
-  WOk.sub hq hb h
+theorem CInv.removeFromConn {s : St} {k : Nat} (h : CInv tr ns cw none s) : CInv tr ns cw none (s.removeFromConn k) :=
+  CInv.removeFromConn' (Or.inl rfl) h
 
-theorem WInv.detach {s : St} {k : Nat} (h : WInv tr ns cw s) : WInv tr ns cw (s.detach k) := by
+theorem CInv.subQs {s : St} {qs' : List Query} {bq' : List (Nat × Nat)} (hq : qs'.Sublist s.qs)
+    (hb : bq'.Sublist s.byQid) (h : CInv tr ns cw ex s) : CInv tr ns cw ex { s with qs := qs', byQid := bq' } :=
+  CInv.lift h rfl (COk.sub hq hb)
+
+theorem CInv.detach {s : St} {k : Nat} (h : CInv tr ns cw none s) : CInv tr ns cw none (s.detach k) := by
   unfold St.detach
   split
   · exact h
-  · have h1 : WInv tr ns cw (s.removeFromConn k) := WInv.removeFromConn h
-    exact WOk.sub (p := wproj (s.removeFromConn k)) (List.Sublist.refl _) List.filter_sublist h1
+  · have h1 : CInv tr ns cw none (s.removeFromConn k) := CInv.removeFromConn h
+    exact CInv.lift h1 rfl (COk.sub (p := cproj (s.removeFromConn k)) (List.Sublist.refl _) List.filter_sublist)
 
-theorem WInv.freeQuery {s : St} {k : Nat} (h : WInv tr ns cw s) : WInv tr ns cw (s.freeQuery k) := by
+theorem CInv.freeQuery {s : St} {k : Nat} (h : CInv tr ns cw none s) : CInv tr ns cw none (s.freeQuery k) := by
   unfold St.freeQuery
-  have h1 : WInv tr ns cw (s.detach k) := WInv.detach h
-  exact WOk.sub (p := wproj (s.detach k)) List.filter_sublist (List.Sublist.refl _) h1
+  have h1 : CInv tr ns cw none (s.detach k) := CInv.detach h
+  exact CInv.lift h1 rfl (COk.sub (p := cproj (s.detach k)) List.filter_sublist (List.Sublist.refl _))
 
-theorem WInv.recordTx {s : St} {fd : Nat} {tcp : Bool} {f : OutFrame} (h : WInv tr ns cw s) :
-    WInv tr ns cw (s.recordTx fd tcp f) := by
+theorem cproj_recordTx (s : St) (fd : Nat) (tcp : Bool) (f : OutFrame) :
+    ∃ g, NameOnly g ∧ cproj (s.recordTx fd tcp f) = { cproj s with qs := s.qs.map g } ∧
+      (s.recordTx fd tcp f).outOfFuel = s.outOfFuel := by
   obtain ⟨t, g, ev, sl, hg, _, e⟩ := recordTx_shape s fd tcp f
-  rw [e]
-  exact WInv.congr (s := { s with qs := s.qs.map g }) rfl rfl (WInv.mapQs (coreEq_nameOnly hg) h)
+  exact ⟨g, hg, by rw [e]; rfl, by rw [e]⟩
 
-theorem WInv.advanceOut {s : St} {fuel fd n : Nat} (h : WInv tr ns cw s) :
-    WInv tr ns cw (Cares.Chan.advanceOut fuel fd s n) := by
-  obtain ⟨cs, tx, qs, ev, sl, e, _, ⟨g, hg, hq⟩⟩ := advanceOut_shape fuel fd s n
-  rw [e, hq]
-  exact WInv.congr (s := { s with qs := s.qs.map g }) rfl rfl (WInv.mapQs (coreEq_nameOnly hg) h)
+theorem CInv.recordTx {s : St} {fd : Nat} {tcp : Bool} {f : OutFrame} (h : CInv tr ns cw ex s) :
+    CInv tr ns cw ex (s.recordTx fd tcp f) := by
+  obtain ⟨g, hg, e, ho⟩ := cproj_recordTx s fd tcp f
+  refine CInv.lift h ho ?_
+  intro hok; rw [e]; exact COk.mapQs (coreEq_nameOnly hg) hok
 
-chan_simple_lemmas WInv : (WInv tr ns cw) =>
-  emit slog ofault mfault oofSt setConn setSock modConn modSock modClient cacheExpire
+theorem cproj_modConn (s : St) (fd : Nat) (f : Conn → Conn) (hf : ∀ c, (f c).fd = c.fd ∧ (f c).tcp = c.tcp) :
+    cproj (s.modConn fd f) = cproj s := by
+  unfold cproj St.modConn
+  simp only [List.map_map, CP.mk.injEq, true_and, and_true]
+  apply List.map_congr_left
+  intro c _
+  by_cases hc : c.fd == fd <;> simp [Function.comp, hc, hf]
+
+theorem cproj_map_id (s : St) : ({ cproj s with qs := s.qs.map (fun q => q) } : CP) = cproj s := by
+  simp [cproj]
+
+theorem cproj_advanceOut (fuel fd : Nat) (s : St) (n : Nat) :
+    ∃ g, NameOnly g ∧ cproj (Cares.Chan.advanceOut fuel fd s n) = { cproj s with qs := s.qs.map g } ∧
+      (Cares.Chan.advanceOut fuel fd s n).outOfFuel = s.outOfFuel := by
+  induction fuel generalizing s n with
+  | zero => exact ⟨_, NameOnly.id, (cproj_map_id s).symm, rfl⟩
+  | succ k ih =>
+    unfold advanceOut
+    split
+    · exact ⟨_, NameOnly.id, (cproj_map_id s).symm, rfl⟩
+    · split
+      · exact ⟨_, NameOnly.id, (cproj_map_id s).symm, rfl⟩
+      · dsimp only
+        split
+        · rename_i c _ _ f rest _ _
+          have hm : cproj (s.modConn fd fun c => { c with out := rest, outOff := 0 }) = cproj s :=
+            cproj_modConn s fd _ (fun _ => ⟨rfl, rfl⟩)
+          obtain ⟨g, hg, e, ho⟩ := cproj_recordTx (s.modConn fd fun c => { c with out := rest, outOff := 0 }) fd true f
+          have hq : (s.modConn fd fun c => { c with out := rest, outOff := 0 }).qs = s.qs := rfl
+          split
+          · exact ⟨g, hg, by rw [e, hm, hq], by rw [ho]; rfl⟩
+          · obtain ⟨g', hg', e', ho'⟩ := ih
+              ((s.modConn fd fun c => { c with out := rest, outOff := 0 }).recordTx fd true f) (n - (f.len - c.outOff))
+            refine ⟨g' ∘ g, hg'.comp hg, ?_, by rw [ho', ho]; rfl⟩
+            rw [e']
+            have hq2 : ((s.modConn fd fun c => { c with out := rest, outOff := 0 }).recordTx fd true f).qs =
+                s.qs.map g := by
+              have := congrArg CP.qs e; rw [hq] at this; exact this
+            rw [hq2, e, hm]; simp [List.map_map]
+        · refine ⟨_, NameOnly.id, ?_, rfl⟩
+          rw [cproj_modConn]
+          · exact (cproj_map_id s).symm
+          · intro _; exact ⟨rfl, rfl⟩
+
+theorem CInv.advanceOut {s : St} {fuel fd n : Nat} (h : CInv tr ns cw ex s) :
+    CInv tr ns cw ex (Cares.Chan.advanceOut fuel fd s n) := by
+  obtain ⟨g, hg, e, ho⟩ := cproj_advanceOut fuel fd s n
+  refine CInv.lift h ho ?_
+  intro hok; rw [e]; exact COk.mapQs (coreEq_nameOnly hg) hok
+
+/-- every connection with descriptor `fd` is dropped (`ares_close_connection`) -/
+theorem CInv.closeFd {s s' : St} (fd : Nat) (h0 : s'.cfg = s.cfg)
+    (h1 : cproj s' = cproj { s with conns := s.conns.filter (·.fd != fd) }) (h2 : s'.outOfFuel = s.outOfFuel)
+    (h : CInv tr ns cw ex s) : CInv tr ns cw ex s' := by
+  refine CInv.lift h h2 ?_
+  intro hok
+  rw [h1]
+  have : cproj { s with conns := s.conns.filter (·.fd != fd) } =
+      { cproj s with kinds := (cproj s).kinds.filter (fun e => e.1 != fd) } := by
+    unfold cproj
+    simp only [CP.mk.injEq, true_and, and_true]
+    rw [List.filter_map]
+    rfl
+  rw [this]
+  exact COk.closeFd fd hok
+
+chan_simple_lemmas CInv : (CInv tr ns cw ex) =>
+  emit slog ofault mfault setSock modSock modClient cacheExpire
 
 end
 
-/-- strip one layer of structure update that leaves the accounting projection alone -/
-macro "w_congr" : tactic => `(tactic| (
-  refine WInv.congr (s := ?s0) ?h0 ?h1 ?hI
+/-- strip one layer of structure update that leaves the accounting projection (and the fuel flag) alone -/
+macro "c_congr" : tactic => `(tactic| (
+  refine CInv.congr (s := ?s0) ?h0 ?h1 ?h2 ?hI
   case h0 => (dsimp only; exact rfl)
-  case h1 => exact rfl))
+  case h1 => exact rfl
+  case h2 => exact rfl))
 
-macro "w_spec" : tactic => `(tactic| first
-  | with_reducible apply WInv.removeFromConn
-  | with_reducible apply WInv.detach
-  | with_reducible apply WInv.freeQuery
-  | with_reducible apply WInv.recordTx
-  | with_reducible apply WInv.advanceOut
-  | with_reducible apply WInv.incFailures
-  | with_reducible apply WInv.setGood
-  | with_reducible apply WInv.metricsRecord
-  | with_reducible apply WInv.setServer
-  | with_reducible apply WInv.modServer
-  | with_reducible apply WInv.draw1
-  | with_reducible apply WInv.draw2
-  | with_reducible apply WInv.pop8
-  | with_reducible apply WInv.genQid
-  | (with_reducible refine WInv.modQuery ?hf ?hI; case hf => (intro _; exact ⟨rfl, rfl, rfl, rfl, rfl, rfl⟩))
+macro "c_spec" : tactic => `(tactic| first
+  | with_reducible apply CInv.removeFromConn
+  | with_reducible apply CInv.detach
+  | with_reducible apply CInv.freeQuery
+  | with_reducible apply CInv.recordTx
+  | with_reducible apply CInv.advanceOut
+  | with_reducible apply CInv.incFailures
+  | with_reducible apply CInv.setGood
+  | with_reducible apply CInv.metricsRecord
+  | with_reducible apply CInv.notify
+  | with_reducible apply CInv.draw1
+  | with_reducible apply CInv.draw2
+  | with_reducible apply CInv.pop8
+  | with_reducible apply CInv.genQid
+  | ((with_reducible refine CInv.modServer ?hf ?hI)
+     case hf => (intro v; dsimp only; first | exact Or.inl rfl | (split <;> first | exact Or.inl rfl | exact Or.inr rfl)))
+  | ((with_reducible refine CInv.modConn ?hf ?hI); case hf => (intro _; exact ⟨rfl, rfl⟩))
+  | ((with_reducible refine CInv.modQuery ?hf ?hI); case hf => (intro _; exact ⟨rfl, rfl, rfl, rfl, rfl, rfl, rfl, rfl⟩))
   | with_reducible (first
-      | apply WInv.emit | apply WInv.slog | apply WInv.ofault | apply WInv.mfault | apply WInv.oof
-      | apply WInv.setConn | apply WInv.setSock | apply WInv.modConn
-      | apply WInv.modSock | apply WInv.modClient | apply WInv.cacheExpire))
+      | apply CInv.emit | apply CInv.slog | apply CInv.ofault | apply CInv.mfault
+      | apply CInv.setSock | apply CInv.modSock | apply CInv.modClient | apply CInv.cacheExpire)
+  | (refine CInv.closeFd (s := ?s0) ?fd ?h0 ?h1 ?h2 ?hI
+     case h0 => (dsimp only; exact rfl)
+     case h1 => exact rfl
+     case h2 => exact rfl))
 
 end Cares.Chan
